@@ -37,14 +37,14 @@ type Report struct {
 	Seed     int64
 	Start    time.Time
 	Obs      []*Obligation
-	Counts   map[string]int    // per-rule instance counts
-	Floors   map[string]int    // per-rule floors
-	Tables   map[string]any    // extracted tables printed in the evidence
-	Notes    []string          // observations (not violations)
-	Assume   []string          // assumptions
-	Explain  string            // coverage.explanation
-	Undec    string            // what is not decided
-	Stats    map[string]int    // functions analysed, call sites, packages…
+	Counts   map[string]int // per-rule instance counts
+	Floors   map[string]int // per-rule floors
+	Tables   map[string]any // extracted tables printed in the evidence
+	Notes    []string       // observations (not violations)
+	Assume   []string       // assumptions
+	Explain  string         // coverage.explanation
+	Undec    string         // what is not decided
+	Stats    map[string]int // functions analysed, call sites, packages…
 	seen     map[string]int
 }
 
@@ -191,6 +191,11 @@ func (r *Report) Finish(verifDir string) int {
 	violPath := filepath.Join(evDir, r.Property+".violations.json")
 	os.Remove(violPath)
 
+	if os.Getenv("VERIF_DUMP_OBLIGATIONS") != "" {
+		for _, o := range r.Obs {
+			fmt.Fprintf(os.Stderr, "OBL %v triv=%v %s @%s :: %s\n", o.Status, o.Trivial, o.Key, o.Pos, o.Reason)
+		}
+	}
 	// samples: up to 14 non-trivial discharged obligations spread over rules, plus all violations
 	var samples []any
 	perRule := map[string]int{}
@@ -217,23 +222,23 @@ func (r *Report) Finish(verifDir string) int {
 		expl += " NOT DECIDED by this check: " + r.Undec
 	}
 	cov := map[string]any{
-		"explanation":         expl,
-		"evaluations":         len(r.Obs),
-		"distinct_nontrivial": len(distinct),
-		"rule":                "one evaluation = one obligation (rule instance on a specific construct of /repo's current source); non-trivial = discharged by a dominating guard, value-identity or table-agreement witness (trivially true obligations, e.g. operands of constant provenance, are counted separately); distinct = distinct obligation keys rule|package|function|construct",
-		"samples":             samples,
-		"obligations":         len(r.Obs),
-		"discharged":          nDis,
-		"trivially_discharged": nTriv,
-		"known_findings":      nKnown,
+		"explanation":           expl,
+		"evaluations":           len(r.Obs),
+		"distinct_nontrivial":   len(distinct),
+		"rule":                  "one evaluation = one obligation (rule instance on a specific construct of /repo's current source); non-trivial = discharged by a dominating guard, value-identity or table-agreement witness (trivially true obligations, e.g. operands of constant provenance, are counted separately); distinct = distinct obligation keys rule|package|function|construct",
+		"samples":               samples,
+		"obligations":           len(r.Obs),
+		"discharged":            nDis,
+		"trivially_discharged":  nTriv,
+		"known_findings":        nKnown,
 		"violated_or_undecided": len(viol),
-		"rule_instances":      r.Counts,
-		"rule_floors":         r.Floors,
-		"stats":               r.Stats,
-		"tables":              r.Tables,
-		"observations":        r.Notes,
-		"exhaustive":          true,
-		"checker_cmd":         fmt.Sprintf("./check.sh %s %s", r.Property, r.Tier),
+		"rule_instances":        r.Counts,
+		"rule_floors":           r.Floors,
+		"stats":                 r.Stats,
+		"tables":                r.Tables,
+		"observations":          r.Notes,
+		"exhaustive":            true,
+		"checker_cmd":           fmt.Sprintf("./check.sh %s %s", r.Property, r.Tier),
 	}
 	ev := evidence{PropertyID: r.Property, Tier: r.Tier, Seed: r.Seed, Level: "other", Coverage: cov,
 		Assumptions: r.Assume, WallS: time.Since(r.Start).Seconds(), Violations: len(viol)}
